@@ -175,7 +175,7 @@ def _task(item):
           checked = True
           worst = max(worst, err / max(bound, 1e-12))
           if err > bound * 1.05 + 1e-5:
-            out["problems"].append(("drq-bound", "output %s: error %.4g exceeds the analytic bound %.4g of dynamic 8-bit activation quantisation" % (n, err, bound)))
+            out["problems"].append(("drq-bound", "output %s: error %.4g exceeds the analytic bound %.4g of dynamic 8-bit activation quantisation" % (n, err, bound), oi))
             return out
       out["kind"] = "drq-bounded" if checked else "drq-structural"
   out["worst"] = worst
@@ -226,11 +226,13 @@ def main():
     kinds_count[out.get("kind")] = kinds_count.get(out.get("kind"), 0) + 1
     if out.get("diffs"):
       chk.note("spec-drift %s: %s" % (out["key"], "; ".join(out["diffs"])[:200]))
-    for kind, msg in out["problems"]:
+    for prob in out["problems"]:
+      kind, msg = prob[0], prob[1]
       fid = None
-      if kind in ("drq-bound",) and "F15" in kf and any(cs == "DEPTHWISE_CONV_2D" for c_ in out.get("codes", []) for cs in c_) and \
-         any(m["m"] == "DRQ" and m["w"] == "w8t" for ms in it[0]["mode"] for m in ms):
-        fid = "F15"
+      if kind == "drq-bound" and "F15" in kf and len(prob) > 2:
+        oi = prob[2]      # known finding F15: exactly the DEPTHWISE_CONV_2D operator under dynamic range with tensor-wise 8-bit weights
+        if out["codes"][0][oi] == "DEPTHWISE_CONV_2D" and it[0]["mode"][0][oi]["m"] == "DRQ" and it[0]["mode"][0][oi]["w"] == "w8t":
+          fid = "F15"
       if fid:
         chk.known(fid)
       else:
